@@ -25,6 +25,7 @@ def Consents (s : State) (kind : StepKind) (signers : List Addr) (h : Addr) : Pr
     h ∈ signers ∨
     (∃ g ∈ s.grants, g.granter = h ∧ g.grantee ∈ signers ∧ g.mt = mt) ∨
     (∃ m, findMarker s h = some m ∧ ∃ x ∈ signers, m.has x .withdraw = true)
+  | .mwithdraw => ∃ m, findMarker s h = some m ∧ ∃ x ∈ signers, m.has x .withdraw = true
   | .env => False
 
 /-- when `h'` is a restricted marker, one of `signers` has deposit on it -/
@@ -48,6 +49,9 @@ theorem Consents.mono {s : State} {kind : StepKind} {sg sg' : List Addr} {h : Ad
   cases kind with
   | send => exact absurd rfl hk
   | env => exact hc
+  | mwithdraw =>
+    obtain ⟨m, hm, x, hx, h1⟩ := hc
+    exact ⟨m, hm, x, hsub _ hx, h1⟩
   | msg mt =>
     rcases hc with h1 | ⟨g, hg, h1, h2, h3⟩ | ⟨m, hm, x, hx, h1⟩
     · exact Or.inl (hsub _ h1)
